@@ -250,6 +250,9 @@ def judge(res, o, wf, tree):
 
 
 def run(res, build):
+    from .. import emitunit
+
+    emitunit.run(res, res.tier)     # unit level: real Row/Cell/TextContent emitters vs Model/Emit.lean, byte-exact
     n = 420 if res.tier == "quick" else 6000
     jobs = [(res.seed, k, None) for k in range(n)]
     cdir = common.CORPUS / "C01"
